@@ -401,7 +401,30 @@ def r8(ctx):
         raise AnalysisBroken('C17.R8: only %d insertions into the poll queue found' % n)
 
 
+def r9(ctx):
+    ctx.rule('C17.R9', 'the virtual poll time has one domain: Message::m_pollOrder (the time of the next poll of a message) and '
+             'g_lastPollOrder (the time of the last selection, which new and re-prioritised messages start from) have the same '
+             'integer type, at least 32 bits wide; a narrower member wraps around long before the mark does, the message that '
+             'wrapped sorts in front of all others and is selected thousands of times in a row', minimum=1)
+    fb = ctx.fb
+    cls = fb.classes.get('ebusd::Message')
+    g = fb.globals.get('ebusd::g_lastPollOrder')
+    if cls is None or g is None:
+        raise AnalysisBroken('C17.R9: Message or g_lastPollOrder not found')
+    f = [x for x in cls.get('fields', []) if x['name'] == 'm_pollOrder']
+    if not f:
+        raise AnalysisBroken('C17.R9: Message::m_pollOrder not found')
+    f = f[0]
+    ok = f.get('w') == g.get('w') and bool(f.get('sg')) == bool(g.get('sg')) and (f.get('w') or 0) >= 32
+    fn = fb.fn('ebusd::MessageMap::getNextPoll')
+    ctx.touch(fn)
+    ctx.ob('C17.R9', fn, fn.body, ok, 'type of m_pollOrder and of g_lastPollOrder',
+           'm_pollOrder is %s (%s bit), g_lastPollOrder is %s (%s bit): same domain of at least 32 bit: %s' % (
+               f.get('t'), f.get('w'), g.get('t'), g.get('w'), ok))
+
+
 def run(ctx):
+    r9(ctx)
     r8(ctx)
     r7(ctx)
     r6(ctx)
